@@ -634,8 +634,8 @@ def evaluate(spec):
     tag = exc or 'ok'
     nontriv = False
     if exc == 'ErrNoArgs':
-        fails.append(('full-register-noargs', 'extend raises "Require nonzero number of args!" for a multi-qubit pulse mapped onto '
-                      'the whole register together with an identifier mapping / additional noise Hamiltonian'))
+        fails.append(('full-register-noargs', 'extend raises "Require nonzero number of args!" (tensor_insert without identities; '
+                      'repaired by e379e51) for a multi-qubit pulse mapped onto the whole register'))
     if q is not None:
         if obs.startswith('(ReturnSame'):
             tag = 'shortcut'
